@@ -180,3 +180,68 @@ def zip_longest(*iterables, fillvalue=None):
                     values.append(fillvalue)
             i += 1
         yield tuple(values)
+
+
+NOKEY = Sentinel("<no key>")
+NOVALUE = Sentinel("<no value>")
+
+
+class groupby:
+    """transcription of groupbyobject / _grouperobject of CPython's itertoolsmodule.c"""
+
+    def __init__(self, iterable, key=None):
+        self.keyfunc = key
+        self.it = iter(iterable)
+        self.tgtkey = NOKEY
+        self.currkey = NOKEY
+        self.currvalue = NOVALUE
+        self.currgrouper = None
+
+    def __iter__(self):
+        return self
+
+    def _step(self):
+        newvalue = next(self.it)
+        if self.keyfunc is None:
+            newkey = newvalue
+        else:
+            newkey = self.keyfunc(newvalue)
+        self.currvalue = newvalue
+        self.currkey = newkey
+
+    def __next__(self):
+        self.currgrouper = None
+        # skip to next iteration group
+        while True:
+            if self.currkey is NOKEY:
+                pass
+            elif self.tgtkey is NOKEY:
+                break
+            elif not (self.tgtkey == self.currkey):
+                break
+            self._step()
+        self.tgtkey = self.currkey
+        grouper = _grouper(self, self.tgtkey)
+        self.currgrouper = grouper
+        return (self.currkey, grouper)
+
+
+class _grouper:
+    def __init__(self, parent, tgtkey):
+        self.parent = parent
+        self.tgtkey = tgtkey
+
+    def __iter__(self):
+        return self
+
+    def __next__(self):
+        gbo = self.parent
+        if gbo.currgrouper is not self:
+            raise StopIteration
+        if gbo.currvalue is NOVALUE:
+            gbo._step()
+        if not (self.tgtkey == gbo.currkey):
+            raise StopIteration
+        r = gbo.currvalue
+        gbo.currvalue = NOVALUE
+        return r
